@@ -14,7 +14,7 @@ from ..core.outcome import Violation
 
 NAME = "clocksim"
 SIM_UNIT = "clock ticks"
-BUDGET = {"quick": {"runs": 12000, "wall": 80}, "thorough": {"runs": 150000, "wall": 1200}}
+BUDGET = {"quick": {"runs": 30000, "wall": 80}, "thorough": {"runs": 150000, "wall": 1200}}
 SHRINK_LISTS = ("ops",)
 PROBES = {"C15": ["refpoint-same-state-new-time", "jump-back", "jump-forward", "jump-tensor", "reset-nonzero", "refpoint-default",
                   "refpoint-explicit", "read-after-call-since-refpoint", "read-after-jump-since-refpoint",
